@@ -13,6 +13,8 @@ import hashlib
 import random
 import traceback
 import faulthandler
+import signal
+import threading
 import multiprocessing
 from collections import Counter
 from concurrent.futures import ProcessPoolExecutor, wait, FIRST_COMPLETED
@@ -198,11 +200,37 @@ class Agg:
         self.errors.extend(other.errors)
 
 
+class RunTimeout(BaseException):
+    """Raised in the main thread by the wall-clock watchdog of a run (BaseException, so that
+    the framework's own `except Exception` clauses cannot swallow it)."""
+
+
+def _on_alarm(signum, frame):
+    raise RunTimeout()
+
+
 def run_one(mod, case):
     """Run one case; harness exceptions are re-raised as HarnessError with the
-    case attached (never turned into a violation)."""
+    case attached (never turned into a violation).  Modules that set RUN_TIMEOUT get a
+    wall-clock watchdog (SIGALRM interrupts pure-Python loops and the regex engine alike): a run
+    that exceeds it is a violation of class <PROP>:no-answer-within-<n>s, not a harness error."""
+    limit = getattr(mod, 'RUN_TIMEOUT', None)
+    armed = False
+    if limit and threading.current_thread() is threading.main_thread():
+        old_handler = signal.signal(signal.SIGALRM, _on_alarm)
+        signal.setitimer(signal.ITIMER_REAL, float(limit))
+        armed = True
     try:
         res = mod.run_case(case)
+    except RunTimeout:
+        res = new_result()
+        violation(res, f'{mod.PROP}:no-answer-within-{int(limit)}s',
+                  f'the request was not answered within {limit} s of wall-clock time (ordinary runs take milliseconds): '
+                  f'endless loop or runaway computation')
+        res['nontrivial'] = True
+        res['fired']['watchdog'] += 1
+        res['digest'] = digest(['watchdog', limit])
+        return res
     except HarnessError:
         raise
     except (KeyboardInterrupt, SystemExit):
@@ -213,6 +241,10 @@ def run_one(mod, case):
         except BaseException:   # noqa  (e.g. RadiDictKeyError.__getattr__ raises KeyError for __notes__)
             tb = ''.join(traceback.format_tb(e.__traceback__))
         raise HarnessError(f'run_case raised {type(e).__name__}: {e}\n{tb}\ncase={json.dumps(case, default=_json_default)[:2000]}') from None
+    finally:
+        if armed:
+            signal.setitimer(signal.ITIMER_REAL, 0)
+            signal.signal(signal.SIGALRM, old_handler)
     if res['digest'] is None:
         raise HarnessError('run_case returned no digest')
     return res
